@@ -38,7 +38,7 @@ def build(par, links, names, vals, ext_link):
         if vals[i] is not None:
             kw['tag'] = vals[i]
             kw['resource'] = vals[i] or None
-        objs.append(Task(i + 1, estimate=None if i % 2 else 3, **kw))
+        objs.append(Task(i, estimate=None if i % 2 else 3, **kw))  # ids start at 0 (a falsy id is an id)
     w = WBS()
     for i, t in enumerate(objs):
         if par[i] is None:
@@ -50,7 +50,7 @@ def build(par, links, names, vals, ext_link):
     ext = None
     if ext_link is not None:
         y = WBS()
-        ext = Task(77, 'ext')
+        ext = Task(0, 'ext')  # an outside task sharing the (falsy) id of a member
         y.roots.append(ext)
         kind, i = ext_link
         if kind == 'p':
